@@ -253,6 +253,9 @@ func runControls(dir string) *controlResult {
 		{"LOCS-IMPLY-FREQNORM", map[string]bool{"BadFlagsLocsWithoutFreqNorm": true, "GoodFlagsLocsImplyFreqNorm": false}},
 		{"SEEN-UNCONDITIONAL", map[string]bool{"(*ctlBuilder).BadSeenOnlyWithTerms": true, "(*ctlBuilder).GoodSeenAlways": false}},
 		{"KEY-NIL-AMBIGUOUS", map[string]bool{"(*lowTracker).BadNilKeyMeansUnset": true, "(*lowTracker).GoodCountMeansUnset": false}},
+		{"CLOSE-BEFORE-SIZE", map[string]bool{"BadSizeBeforeClose": true, "GoodSizeAfterClose": false}},
+		{"WRAPPED-WRITER-HASHED", map[string]bool{"(*ctlHashWriter).BadReadFromUnhashed": true, "(*ctlHashWriter).GoodReadFromTeed": false}},
+		{"THREADED-RESULT", map[string]bool{"BadThreadedCursorReset": true, "GoodThreadedCursorKept": false}},
 		{"FLUSH-SITES-AGREE", map[string]bool{"BadFlushSitesLastTermUntracked": true, "GoodFlushSitesAllTracked": false}},
 	} {
 		rule := rules[rc.rule]
